@@ -4,8 +4,8 @@ models of the other properties (container: C03 `Header`; head/hhea/hmtx/maxp/OS-
 `Metrics`; name: C14 `Names`; glyf/loca: C11 `Glyf`) and from the font-level plumbing of this
 property (`derive`, `merge`).  Core-only (linked into the driver).
 
-Stage 1: TrueType outlines, no cmap table (`CMapTable == nil`), no glyph names in post
-(`Names == nil`, version 3.0), no GDEF/GSUB/GPOS.
+Stage 2: TrueType outlines, cmap table (C09 `CmapTable`), glyph names in post (C14 `NamesPost`);
+no GDEF/GSUB/GPOS.
 -/
 import SfntV.Model.FontMerge
 import SfntV.Model.Header
@@ -13,6 +13,9 @@ import SfntV.Model.MetricsWriter
 import SfntV.Model.Os2
 import SfntV.Model.NamesTable
 import SfntV.Model.Glyf
+import SfntV.Model.CmapTable
+import SfntV.Model.Cmap4
+import SfntV.Model.LayoutLig
 
 namespace SfntV.FontFile
 open SfntV SfntV.Font
@@ -31,6 +34,11 @@ structure FileFont where
   maxpTtf : List Nat
   /-- `Outlines.Tables`: raw side tables ("cvt ", "fpgm", "prep", "gasp") -/
   sideTables : List (Bytes × Bytes)
+  /-- `Font.CMapTable` (`none` = nil map): subtable bytes by key, sorted by (platform, encoding,
+  language) -/
+  cmap : Option CmapTable.Table
+  /-- `Outlines.Names` (`none` = nil slice): glyph names as byte strings -/
+  glyphNames : Option (List Names.GName)
 deriving Repr, DecidableEq
 
 /-- what `Write` takes from outside the font value -/
@@ -52,16 +60,42 @@ def glyfBytes (gs : Glyf.Glyphs) : Bytes :=
   | .ok e => e.glyf
   | _ => []
 
+/-- `decodeFormat4` as used by `Table.Get` (C09) -/
+def dec4 (d : Bytes) (mac : Bool) : Outcome (List (Nat × Nat)) := CmapTable.dec4Of Cmap4.decode d mac
+
+/-- `CMapTable.GetBest()`; `none` when the table is nil or has no usable subtable -/
+def bestSub (cm : Option CmapTable.Table) : Option CmapTable.Sub :=
+  match cm with
+  | none => none
+  | some t => match CmapTable.getBest dec4 t with
+    | .ok s => some s
+    | _ => none
+
+/-- token of `standardLigatures(cmapBest)`: the ligature table of C15's model, `none` when no
+standard ligature can be formed -/
+def stdLigOf (s : CmapTable.Sub) : Option Str :=
+  match Layout.standardLigatures s.lookup with
+  | some t => some (toString (repr t)).toList
+  | none => none
+
 /-- the outline summary of the font-level model, computed from the payload -/
-def outlineOf (gs : Glyf.Glyphs) (widths : Option (List Int)) : Outline :=
+def outlineOf (gs : Glyf.Glyphs) (widths : Option (List Int)) (cm : Option CmapTable.Table)
+    (names : Option (List Names.GName)) : Outline :=
+  let best := bestSub cm
   { kind := .glyf, numGlyphs := gs.length, widths := widths.map (·.map Dy.ofInt),
     heights := gs.map fun g => (rectOf g).ury,
-    glyphs := tokenOfBytes (glyfBytes gs), emptyGlyf := (glyfBytes gs).isEmpty,
-    cmap := ['-'], hasBest := false, gidH := 0, gidX := 0, stdLig := none }
+    glyphs := tokenOfBytes (glyfBytes gs) ++ (toString (repr names)).toList,
+    emptyGlyf := (glyfBytes gs).isEmpty,
+    cmap := match cm with | some t => tokenOfBytes (CmapTable.encode t) | none => ['-'],
+    hasBest := best.isSome,
+    gidH := match best with | some s => s.lookup 72 | none => 0,
+    gidX := match best with | some s => s.lookup 120 | none => 0,
+    stdLig := best.bind stdLigOf }
 
 /-- the `FontMeta` a file font stands for -/
 def metaOf (F : FileFont) : FontMeta :=
-  { F.scalars with outline := outlineOf F.glyphs (some F.widths), gdef := none, gsub := none, gpos := none }
+  { F.scalars with outline := outlineOf F.glyphs (some F.widths) F.cmap F.glyphNames,
+                   gdef := none, gsub := none, gpos := none }
 
 /-! ## concrete table records (adapters between the font-level records and the C12/C14 models) -/
 
@@ -144,6 +178,30 @@ def nameRecOf (dec : List Names.Entry) : Option NameRec :=
 def natsToBytes (l : List Nat) : Bytes := l.map UInt8.ofNat
 def bytesToNats (b : Bytes) : List Nat := b.map (·.toNat)
 
+/-- `cmap.Subtable.CodeRange()` of the decoded subtable (formats 4 and 6 decode to `Format4`,
+format 12 to `Format12`, format 0 answers (0, 255)) -/
+def codeRangeOf : CmapTable.Sub → Int × Int
+  | .f0 _ => (0, 255)
+  | .f4 w => Metrics.codeRange4 (w.map fun p => (p.1 : Int))
+  | .f6 w => Metrics.codeRange4 (w.map fun p => (p.1 : Int))
+  | .f12 gs => Metrics.codeRange12 ((Cmap12.expand gs).map fun p => CmapTable.toRune p.1) true (0, 0)
+
+/-- makeOS2: first / last character index -/
+def charIndices (cm : Option CmapTable.Table) : Nat × Nat :=
+  match bestSub cm with
+  | some s =>
+    let r := codeRangeOf s
+    ((Metrics.charIndexModel r.1).toNat, (Metrics.charIndexModel r.2).toNat)
+  | none => (0, 0)
+
+/-- the post header in the representation of C14's post model (bit patterns) -/
+def postHdrN (p : PostRec) : Names.PostHdr :=
+  ⟨(toInt32 p.italicAngle.round16 % 4294967296).toNat, (p.underlinePosition % 65536).toNat,
+   (p.underlineThickness % 65536).toNat, p.isFixedPitch⟩
+
+def recOfPostHdrN (h : Names.PostHdr) : PostRec :=
+  ⟨⟨Metrics.i32ofNat h.angle, 16⟩, Metrics.i16ofNat h.upos, Metrics.i16ofNat h.uthick, h.fixed⟩
+
 /-! ## `(*Font).Write` -/
 
 def tag (s : String) : Bytes := Header.strBytes s
@@ -171,11 +229,13 @@ def writeTables (ef : EnvF) (F : FileFont) : Outcome (List Header.Entry) :=
       | .panic s => .panic s
       | .ok maxp =>
         let win := Metrics.winMetricsModel bbox
-        let os2 := Metrics.encodeOs2 (os2Of (deriveOs2 M) ⟨0, 0, win.1, win.2⟩)
+        let ci := charIndices F.cmap
+        let os2 := Metrics.encodeOs2 (os2Of (deriveOs2 M) ⟨ci.1, ci.2, win.1, win.2⟩)
         let name := natsToBytes (Names.nameEncode (nameEntries (deriveName ef.env M)) 1)
-        let post := Metrics.encodePost 0x00030000 (postHdrOf (derivePost M))
+        let post := natsToBytes (Names.postEncode (postHdrN (derivePost M)) F.glyphNames)
         let head := Metrics.encodeHead (headOf (deriveHead M) bbox enc.fmt)
-        .ok ([⟨tag "hhea", some hhea⟩, ⟨tag "hmtx", hmtx⟩, ⟨tag "OS/2", some os2⟩, ⟨tag "name", some name⟩,
+        .ok ([⟨tag "hhea", some hhea⟩, ⟨tag "hmtx", hmtx⟩, ⟨tag "cmap", F.cmap.map CmapTable.encode⟩,
+              ⟨tag "OS/2", some os2⟩, ⟨tag "name", some name⟩,
               ⟨tag "post", some post⟩, ⟨tag "glyf", some enc.glyf⟩, ⟨tag "loca", some enc.loca⟩] ++
              F.sideTables.map (fun t => ⟨t.1, some t.2⟩) ++
              [⟨tag "maxp", some maxp⟩, ⟨tag "head", some head⟩])
@@ -205,7 +265,22 @@ structure ReadResult where
   glyphs : Glyf.Glyphs
   maxpTtf : Option (List Nat)
   sideTables : List (Bytes × Bytes)
+  cmap : Option CmapTable.Table
+  glyphNames : Option (List Names.GName)
 deriving Repr, DecidableEq
+
+/-- read.go: glyph names are used only if there is one for every glyph (then the first `n`) -/
+def namesFor (n : Nat) (names : Option (List Names.GName)) : Option (List Names.GName) :=
+  match names with
+  | some ns => if ns.length ≥ n then some (ns.take n) else none
+  | none => none
+
+/-- `post.Read`: header and glyph names (versions 1.0 and 2.0 carry names: C14; 3.0/4.0 none) -/
+def decodePostFull (b : Bytes) : Outcome (PostRec × Option (List Names.GName)) :=
+  match Names.postRead (bytesToNats b) with
+  | .ok h names => .ok (recOfPostHdrN h, names)
+  | .err => .err "malformed"
+  | .unsupported => .err "unsupported"
 
 def sideTags : List Bytes := [tag "cvt ", tag "fpgm", tag "prep", tag "gasp"]
 
@@ -245,7 +320,10 @@ def readFile (caretOf : Int → Int → Int) (f : Bytes) : Outcome ReadResult :=
            | some b => (Names.nameDecode (bytesToNats b)).map some) with
     | none => .err "name:malformed"
     | some nameDec =>
-    match optDecode (tab (tag "post")) Metrics.decodePost with
+    match optDecode (tab (tag "cmap")) CmapTable.decode with
+    | .err e => .err ("cmap:" ++ e) | .panic s => .panic s
+    | .ok cm =>
+    match optDecode (tab (tag "post")) decodePostFull with
     | .err e => .err ("post:" ++ e) | .panic s => .panic s
     | .ok post =>
     match head, maxp, tab (tag "loca"), tab (tag "glyf") with
@@ -261,14 +339,15 @@ def readFile (caretOf : Int → Int → Int) (f : Bytes) : Outcome ReadResult :=
             maxp := some mx.numGlyphs.toNat,
             os2 := os2.map recOfOs2,
             name := nameDec.bind nameRecOf,
-            post := post.map fun p => recOfPostHdr p.2,
+            post := post.map (·.1),
             cff := none,
-            outline := outlineOf gs none,
+            outline := outlineOf gs none cm (namesFor gs.length (post.bind (·.2))),
             gdef := none, gsub := none, gpos := none, kern := none }
         match readErr T with
         | some e => .err e
         | none =>
-          .ok { font := merge T, glyphs := gs, maxpTtf := mx.ttf,
+          .ok { font := merge T, glyphs := gs, maxpTtf := mx.ttf, cmap := cm,
+                glyphNames := namesFor gs.length (post.bind (·.2)),
                 sideTables := sideTags.filterMap fun t =>
                   match tab t with
                   | some b => if b.isEmpty then none else some (t, b)   -- `dir.Has`: zero-length = absent
@@ -279,7 +358,8 @@ def readFile (caretOf : Int → Int → Int) (f : Bytes) : Outcome ReadResult :=
 
 /-- the normal form of a file font: what `Read(Write(F))` is -/
 def nfFile (F : FileFont) : ReadResult :=
-  { font := nf (metaOf F), glyphs := F.glyphs, maxpTtf := some F.maxpTtf,
+  { font := nf (metaOf F), glyphs := F.glyphs, maxpTtf := some F.maxpTtf, cmap := F.cmap,
+    glyphNames := F.glyphNames,
     sideTables := sideTags.filterMap fun t =>
       match F.sideTables.find? (·.1 == t) with
       | some p => if p.2.isEmpty then none else some (t, p.2)
